@@ -34,6 +34,13 @@ def Err.name : Err → String
 
 abbrev R := Except Err
 
+instance instDecidableEqR {α : Type} [DecidableEq α] : DecidableEq (R α) := fun a b =>
+  match a, b with
+  | .ok x, .ok y => if h : x = y then isTrue (by rw [h]) else isFalse (fun e => h (by cases e; rfl))
+  | .error x, .error y => if h : x = y then isTrue (by rw [h]) else isFalse (fun e => h (by cases e; rfl))
+  | .ok _, .error _ => isFalse (fun e => by cases e)
+  | .error _, .ok _ => isFalse (fun e => by cases e)
+
 /-! ## `struct` -/
 
 /-- width in bytes and signedness of a format character (standard sizes, as with `>`). -/
@@ -48,10 +55,13 @@ def fieldSpec : Char → Option (Nat × Bool)
   | 'Q' => some (8, false)
   | _ => none
 
-/-- the range `struct.pack` accepts for a field of `w` bytes -/
+/-- the range `struct.pack` accepts for a field of `w` bytes: `-2^(8w-1) ≤ v < 2^(8w-1)` signed,
+    `0 ≤ v < 2^(8w)` unsigned.  (Written by cases on the sign with `Nat.blt`, so that reducing it on
+    a symbolic value gets stuck at once instead of unfolding a 2^31-deep numeral.) -/
 def fieldInRange (w : Nat) (signed : Bool) (v : Int) : Bool :=
-  if signed then decide (-(2 ^ (8 * w - 1) : Int) ≤ v ∧ v < (2 ^ (8 * w - 1) : Int))
-  else decide (0 ≤ v ∧ v < (2 ^ (8 * w) : Int))
+  match v with
+  | .ofNat n => Nat.blt n (if signed then 2 ^ (8 * w - 1) else 2 ^ (8 * w))
+  | .negSucc n => signed && Nat.blt n (2 ^ (8 * w - 1))
 
 def packField (c : Char) (v : Int) : R Bytes :=
   match fieldSpec c with
